@@ -102,9 +102,11 @@ Proof. apply order_at_QAlg. vm_compute. discriminate. Qed.
     ([run_raw]), any options; (b) the final shapes with remove_empty_shapes
     off; (c) the final shapes with any setting of remove_empty_shapes when no
     shape of the run without inverse paths is empty before the shape-level
-    cleaning (then that cleaning is the identity in both runs).  Not covered:
-    remove_empty_shapes on AND a shape without direct constraints -- there the
-    two cleanings can in principle diverge (a shape with inverse constraints
+    cleaning (then that cleaning is the identity in both runs); (d), (e) further below: the
+    hypothesis of (c) discharged from the input for thresholds <= 1.  Not
+    covered: remove_empty_shapes on AND a shape without direct constraints
+    (possible only for a threshold > 1 or a class IRI starting with '%'/"@") --
+    there the two cleanings could diverge (a shape with inverse constraints
     only survives in one run and its references with it). *)
 From Shexer Require Import Spec.Rdf Model.Tracker Model.SerialShexc Model.Run Proofs.DictLemmas Proofs.ProfileChar
   Proofs.EndToEnd2 Proofs.RunWitness.
@@ -213,3 +215,35 @@ Proof.
   split; [reflexivity|]. split; [reflexivity|]. split; [vm_compute; split; [discriminate | reflexivity]|].
   split; vm_compute; reflexivity.
 Qed.
+
+(** (e) final form for binary64: any mode (target classes included), any
+    setting of remove_empty_shapes, thresholds <= 1, when no class IRI (object
+    of an instantiation triple, requested target class) starts with '%' or "@"
+    ([class_iris_ok]; true of every IRI and blank-node label): with
+    remove_empty_shapes on, a class that survives the profile-level cleaning
+    has features, hence an instance, hence the 100 % constraint on the
+    instantiation property -- no shape is empty before the shape-level cleaning *)
+Theorem C14_run_direct_unchanged_valid : forall c thr g ns st,
+  class_iris_ok c g = true -> wf_frac thr -> fle BAlg thr (fone BAlg) = true ->
+  (N.of_nat (List.length g) < 2 ^ 53)%N ->
+  run_shapes BAlg (rwith_inverse true c) thr g = inl (ns, st) ->
+  exists sf, run_shapes BAlg (rwith_inverse false c) thr g = inl (ns, sf) /\
+             Forall2 (fun sh_t sh_f =>
+               sh_name sh_t = sh_name sh_f /\ sh_class sh_t = sh_class sh_f /\ sh_n sh_t = sh_n sh_f /\
+               filter is_direct (sh_stmts sh_t) = sh_stmts sh_f) st sf.
+Proof. exact run_direct_unchanged_valid. Qed.
+Print Assumptions C14_run_direct_unchanged_valid.
+
+Theorem C14_no_empty_shape_remove : forall c thr g ns l,
+  r_remove_empty c = true -> class_iris_ok c g = true ->
+  wf_frac thr -> fle BAlg thr (fone BAlg) = true -> (N.of_nat (List.length g) < 2 ^ 53)%N ->
+  run_raw BAlg c thr g = inl (ns, l) -> Forall (fun sh => sh_stmts sh <> []) l.
+Proof.
+  intros c thr g ns l Hre Hc Hw Hle Hg.
+  exact (run_raw_nonempty_remove BAlg okN53 wf_frac BAlg_laws c thr g ns l Hre Hc Hw Hle (okN53_of_graph g Hg)).
+Qed.
+Print Assumptions C14_no_empty_shape_remove.
+
+Example C14_valid_nonvacuous :
+  class_iris_ok base_rcfg g_reftie_1 = true /\ class_iris_ok base_rcfg g_shared = true.
+Proof. split; vm_compute; reflexivity. Qed.
